@@ -152,7 +152,11 @@ def zod_shape(e, constraints=None, path=""):
             return ("obj", tuple(props))
         if rest == ["custom"]:
             if targs:
-                return ts_shape(targs[0])
+                s_ = ts_shape(targs[0])
+                if s_ in (("str",), ("num",), ("bool",)):
+                    # z.custom<boolean>(..) types as boolean but checks nothing: not the schema of that primitive
+                    return ("custom-unvalidated", s_)
+                return s_
             return ("any",)
         if rest == ["lazy"] and len(args) == 1 and args[0][0] == "arrow":
             body = args[0][2]
@@ -192,6 +196,8 @@ def show(s):
         return {"str": "string", "num": "number", "bool": "boolean"}.get(k, k)
     if k == "arr":
         return "Array<%s>" % show(s[1])
+    if k == "custom-unvalidated":
+        return "custom<%s>(accepts anything)" % show(s[1])
     if k == "set":
         return "Set<%s>" % show(s[1])
     if k == "tuple":
@@ -226,7 +232,7 @@ def shape_skeleton(s):
         return "N"
     if k == "lit":
         return "lit"
-    if k in ("arr", "set", "optional"):
+    if k in ("arr", "set", "optional", "custom-unvalidated"):
         return "%s<%s>" % (k, shape_skeleton(s[1]))
     if k == "rec":
         return "rec<%s,%s>" % (shape_skeleton(s[1]), shape_skeleton(s[2]))
